@@ -9,6 +9,7 @@ mod ops_names;
 mod ops_lexer;
 mod ops_types;
 mod ops_graph;
+mod ops_doc;
 
 fn s(v: &Value, k: &str) -> String {
     // strings are passed as arrays of bytes ("bytes") or as plain JSON strings
@@ -30,6 +31,7 @@ fn dispatch(v: &Value) -> Value {
         "lexer_spans" | "block_comment_length" | "lex_string" | "discover" | "lex_one" | "parse_pkgref" => ops_lexer::run(op, v),
         "subtype" | "package_from_wat" | "aggregate" | "validate_target" => ops_types::run(op, v),
         "graph" => ops_graph::run(op, v),
+        "resolve_doc" => ops_doc::run(op, v),
         _ => json!({"error": format!("unknown op {op}")}),
     }
 }
